@@ -11,6 +11,8 @@ for f in sorted(glob.glob(os.path.join(V, "seeded", "*", "meta.json"))):
     caught = ", ".join("%s (%s)" % (k, "; ".join(v["clauses"][:3])) for k, v in checks.items() if v["exit"] == 1) or "-"
     missed = ", ".join(k for k, v in checks.items() if v["exit"] == 0) or "-"
     other = ", ".join("%s exit %s" % (k, v["exit"]) for k, v in checks.items() if v["exit"] not in (0, 1)) or ""
+    if m.get("status_after_fix"):
+        other += " (" + m["status_after_fix"] + ")"
     rows.append("| %s | %s | %s | %s | %s %s |" % (m["seed"], m["property"], first[:160].replace("|", "/"), caught, missed, other))
 out = ["# Seeded changes", "",
        "Each directory holds `patch.diff` (never committed to /repo), `demo.py` (fails with the change, passes without), `notes.md` (the sub-agent's description) and `meta.json`",
